@@ -165,6 +165,34 @@ CLAIMED = {
     note='trusted: token-level scanners and the per-language expressibility table; semantic equivalence of the text is C02 territory',
     technique='bounded symbolic exploration of single-attribute perturbations with metamorphic comparison of translator output + inventory scan',
     design='4/C12'),
+ 'C01': dict(
+    text='Modular (assume-guarantee) unit contracts: gen_variable, gen_assignment, gen_conditional, gen_new, gen_variable_decl and the '
+         'generate_expr dispatcher are executed for real under a symbolic RNG (every outcome of every draw) on small symbolic scopes '
+         '(variable types, finality, nested scope, expected type and subtype flag are solver values) with the recursive generate_expr '
+         'replaced by a contract stub; typing obligations on what each unit builds and on what it requests from the recursion are judged '
+         'by the declarative relation. Whole-program well-typedness follows only by a paper induction over the generated tree; '
+         'gen_func_call/gen_field_access/gen_lambda/gen_is_expr/gen_class_decl units are not built.',
+    note='trusted: contract of generate_expr, declarative relation, reduced built-in pools; composition, Context bookkeeping across units and unbuilt units are outside the claim',
+    technique='assume-guarantee unit contracts: bounded symbolic execution of generator units under a symbolic RNG with a contract stub for the recursion',
+    design='4/C01'),
+ 'C05': dict(
+    text='Same unit harnesses as C01 with scoping/mutability/instantiability obligations (every produced variable reference resolves in an '
+         'enclosing scope, java lambdas capture only final variables and never assign captured ones, assignment targets are non-final '
+         'variables/fields, only regular classes are instantiated with one argument per field, new declarations are registered under a '
+         'fresh name) plus two data obligations: the whole word list against each language keyword file under the case mappings of '
+         'gen_identifier, and uniqueness of word() for every choice on a reduced pool.',
+    note='trusted: own scope resolution over the context tables; composition into whole programs is a paper argument',
+    technique='assume-guarantee unit contracts under a symbolic RNG + finite data obligation on the identifier pool',
+    design='4/C05'),
+ 'C18': dict(
+    text='Decided half: (a) no generator unit raises for any RNG outcome, scope and value of the depth counter (symbolic, max_depth=2), and '
+         'the recursion measure holds (depth restored on exit, every recursive request deeper than the entry or with the variable generator '
+         'excluded, only leaf generators at max depth, constructor arguments cut beyond twice max depth); (b) no pipeline stage (translate, '
+         'erase, overwrite under a symbolic RNG, translate) raises on the generated members of the families. NOT decided: termination and '
+         'nesting bound of whole Generator.generate() runs, wall-clock timeouts.',
+    note='half of the property only; the undecided half is stated in the evidence and in DESIGN.md',
+    technique='bounded symbolic execution: exception freedom + recursion measure of generator units (symbolic RNG and depth), exception freedom of pipeline stages over families',
+    design='4/C18'),
 }
 
 NOT_YET = 'check not built yet in this round (planned per DESIGN.md build order); not claimed'
